@@ -124,9 +124,11 @@ def run(ck):
                     a = host[0][2]
                     if a[-3 if host[0][1] == 'is_utf8_domain' else 0:][:2] != (f'({A} + 1)', '(email + length)') and a[:2] != (f'({A} + 1)', '(email + length)'):
                         why3.append(f'{host[0][1]} receives {a}')
-                    if not p.passed(br, True): why3.append('host-name branch taken without testing at[1] != \'[\'')
+                    bq = f"(*({A} + 1) == '[')"
+                    if not (p.passed(br, True) or p.passed(bq, False)): why3.append('host-name branch taken without testing at[1] != \'[\'')
                 else:
-                    if not p.passed(br, False): why3.append('literal branch taken although at[1] is not known to be \'[\'')
+                    bq = f"(*({A} + 1) == '[')"
+                    if not (p.passed(br, False) or p.passed(bq, True)): why3.append('literal branch taken although at[1] is not known to be \'[\'')
         if n_valid == 0: why2.append('no path reaches the local-part scanner')
         r2.instance(site, ok=not why2, wclass='local-call', what='; '.join(sorted(set(why2))))
         r3.instance(site, ok=not why3, wclass='split-bounds', what='; '.join(sorted(set(why3))))
